@@ -15,7 +15,7 @@ RIGHT_OPS = [['^'], ['=']]
 UNARY_OPS = [['-'], ['!'], ['~~']]
 
 
-def gen_spec(rnd, stmt_ok=False, shapes=('direct', 'alias_before', 'alias_after', 'named', 'optpref')):
+def gen_spec(rnd, stmt_ok=False, shapes=('direct', 'alias_before', 'alias_after', 'named', 'optpref', 'split', 'twin')):
     nlev = rnd.randint(1, 3)
     levels = []
     used = set()
@@ -41,6 +41,17 @@ def gen_spec(rnd, stmt_ok=False, shapes=('direct', 'alias_before', 'alias_after'
             if lv['shape'].startswith('alias'):
                 # the alias sorts before or after the level rule (leader choice is by name)
                 lv['alias'] = rnd.choice(['a', 'z']) + str(i)
+            if lv['shape'] == 'split':
+                # every operator alternative in its own rule (indirect recursion through a non-leader), optionally with a cut after
+                # the operator, and a postfix operator that starts like the first binary operator (tried after it)
+                lv['cuts'] = [rnd.random() < 0.6 for _ in ops]
+                lv['postfix'] = ops[0] * 2 if rnd.random() < 0.6 else None
+            if lv['shape'] == 'twin':
+                # two rules, each directly left recursive, that also call each other in left position: no rule lies on all cycles
+                if {'.', '::', '[]'} & used:
+                    lv['shape'] = 'direct'
+                else:
+                    used |= {'.', '::', '[]'}
             if lv['shape'] == 'optpref':
                 lv['pref'] = rnd.choice(['-', '!']) if not {'-', '!'} <= used else '#'
                 if lv['pref'] in used:
@@ -73,6 +84,29 @@ def level_rules(spec):
             alias = lv.get('alias', name + 'x')
             if shape in ('alias_before', 'alias_after'):
                 selfref = ('call', alias)
+            if shape == 'split':
+                alts = []
+                extra = []
+                for k, op in enumerate(lv['ops']):
+                    rn = f'{name}a{k}'
+                    seq = (selfref, ('tok', op)) + ((('cut',),) if lv['cuts'][k] else ()) + (t,)
+                    extra.append((rn, ('seq', seq)))
+                    alts.append(('call', rn))
+                    if k == 0 and lv.get('postfix'):
+                        extra.append((f'{name}p', ('seq', (selfref, ('tok', lv['postfix'])))))
+                        alts.append(('call', f'{name}p'))
+                alts.append(t)
+                rules.append((name, ('alt', tuple(alts))))
+                rules.extend(extra)
+                continue
+            if shape == 'twin':
+                w = ('call', name + 'w')
+                alts = [('seq', (selfref, ('tok', op), t)) for op in lv['ops']]
+                alts.append(('seq', (w, ('tok', '.'), t)))
+                alts.append(t)
+                rules.append((name, ('alt', tuple(alts))))
+                rules.append((name + 'w', ('alt', (('seq', (w, ('tok', '[]'))), ('seq', (selfref, ('tok', '::'), t)), t))))
+                continue
             alts = []
             for op in lv['ops']:
                 if shape == 'named':
@@ -134,6 +168,10 @@ def lexemes(spec):
         out += lv['ops']
         if lv.get('pref'):
             out.append(lv['pref'])
+        if lv.get('postfix'):
+            out.append(lv['postfix'])
+        if lv.get('shape') == 'twin':
+            out += ['.', '::', '[]']
     if spec['paren']:
         out += ['(', ')']
     if spec.get('stmt'):
@@ -146,6 +184,9 @@ def gen_input(rnd, spec, maxlex=7):
     lv = spec['levels']
     binops = [op for l in lv if l['kind'] != 'unary' for op in l['ops']]
     unops = [op for l in lv if l['kind'] == 'unary' for op in l['ops']] + [l['pref'] for l in lv if l.get('pref')]
+    postfix = [l['postfix'] for l in lv if l.get('postfix')] + (['[]'] if any(l.get('shape') == 'twin' for l in lv) else [])
+    if any(l.get('shape') == 'twin' for l in lv):
+        binops = binops + ['.', '::']
     n = rnd.randint(1, max(1, maxlex // 2))
     parts = []
 
@@ -157,6 +198,8 @@ def gen_input(rnd, spec, maxlex=7):
             out += ['('] + expr(depth + 1, rnd.randint(1, 2)) + [')']
         else:
             out.append(rnd.choice(['n', 'm']))
+        while postfix and rnd.random() < 0.25:
+            out.append(rnd.choice(postfix))
         return out
 
     def expr(depth, k):
@@ -227,7 +270,7 @@ class _F(Exception):
 def spec_eval(spec, text, rule=None):
     """precedence climbing over the table, no PEG machinery.
     returns ('ok', endpos, ast) | ('fail',) | None if the spec has a shape this evaluator does not express"""
-    if spec.get('stmt') or any(lv.get('shape') == 'optpref' for lv in spec['levels']):
+    if spec.get('stmt') or any(lv.get('shape') in ('optpref', 'split', 'twin') for lv in spec['levels']):
         return None
     levels = spec['levels']
     names = [lv['rule'] for lv in levels]
